@@ -20,7 +20,7 @@ HOOKS = {"__getstate__", "__setstate__", "__reduce__", "__reduce_ex__", "__copy_
 
 
 def check(ctx):
-    ctx.rule("R-C15.5", "the generated text depends on the structure of the tree only: the generator keeps no state across visits (object identity, visit history), so eval(repr(ast)) - which unshares nodes - generates the same C")
+    ctx.rule("R-C15.5", "the generated text depends on the structure of the tree only: the generator keeps no state across visits (object identity, visit history) and never reads coordinates (which repr does not print), so eval(repr(ast)) - which unshares nodes - generates the same C")
     ctx.rule("R-C15.1", "repr/eval coupling: __repr__ prints __slots__ minus the k bookkeeping slots as keyword arguments that __init__ accepts; lists print as list displays")
     ctx.rule("R-C15.2", "copy/pickle protocol: module-level slotted classes, Node.__slots__ == (), no custom hooks, __weakref__ last and never assigned; Coord is a module-level plain dataclass")
     mod, models = A.class_models()
@@ -186,6 +186,9 @@ def check(ctx):
     # ---- R-C15.5: the generator is a function of the tree's structure (no state kept across visits), so a rebuilt copy generates the same text ------
     from . import share
     share.borrow(ctx, "C12", ("R-C12.4",), "R-C15.5", count=10)
+    # ... and it reads nothing that repr() does not print: coordinates are dropped by repr / eval, so a generator that looks at them (to recognise a
+    # node the parser invented, say) prints different text for the rebuilt tree
+    share.borrow(ctx, "C17", ("R-C17.4",), "R-C15.5", count=20)
 
     ctx.info["explanation"] = ("protocol-precondition analysis over all 49 node classes: the slice of __slots__ printed by Node.__repr__ is matched against each "
                                "class's __slots__ and __init__ signature; default slot-based copy/pickle applicability (no hooks, well-formed slots, module-level classes); Coord dataclass shape")
